@@ -443,6 +443,8 @@ class RefInst:
                     sends = []
                 if rule.get("sends_dplt") is not None and not (dp < rule["sends_dplt"]):
                     sends = []
+                if sends and rule.get("sends_repeat"):
+                    sends = list(sends) * int(rule["sends_repeat"])
                 for s in sends:
                     ner = {"event": s["event"], "args": list(s.get("args") or []),
                            "kwargs": self._fwd(s, er, c)}
